@@ -167,7 +167,7 @@ func ruleLoadAndPrune(c *Ctx) {
 		c.saw(fnName(fn))
 		getID := func(v ssa.Value) bool {
 			cl, _ := callOf(v)
-			return cl != nil && cl.Call.StaticCallee() != nil && cl.Call.StaticCallee().Name() == "GetId"
+			return cl != nil && cl.Call.StaticCallee() != nil && (cl.Call.StaticCallee().Name() == "GetId" || cl.Call.StaticCallee().Name() == "GetID") // the meta's id, directly or through the StoreInfo/RegionInfo wrapper
 		}
 		okNext := false
 		var limitArg ssa.Value
@@ -204,7 +204,7 @@ func ruleLoadAndPrune(c *Ctx) {
 		for _, ci := range callsIn(spec.fn, false, spec.key) {
 			a := callArgs(ci.Common())
 			if len(a) == 1 {
-				if cl, _ := callOf(a[0]); cl != nil && cl.Call.StaticCallee() != nil && cl.Call.StaticCallee().Name() == "GetId" {
+				if cl, _ := callOf(a[0]); cl != nil && cl.Call.StaticCallee() != nil && (cl.Call.StaticCallee().Name() == "GetId" || cl.Call.StaticCallee().Name() == "GetID") {
 					okK = true
 				}
 			}
